@@ -206,8 +206,31 @@ def oracle(ctx, line, res):
             r = ctx.sess.qs[-1]
             ok, a, b = quantity_equal(ctx, r, q)
             if not ok:
+                if cls == "cross-base-float-prefix":
+                    # that class is about prefixes that differ in the last bits; a VALUE that is off by more than
+                    # the 1e-9 of quantity_equal is something else
+                    cls = None
                 fails.append({"kind": "quantity-roundtrip-different", "class": cls, "pair": pair, "text": text,
                               "parsed": "%r %s" % (r.magnitude, r.unit), "quantity": "%r %s" % (q.magnitude, q.unit)})
+            else:
+                # "an equal quantity" means == of the library.  Calling == here would convert (and intern units, which
+                # shifts the creation ordinals the correspondence compares), so the two cases are decided by hand:
+                # same unit object -> the magnitudes must be equal exactly; folded prefix -> == multiplies the
+                # original magnitude by the prefix value, so the printed magnitude must be exactly that product
+                # (on the pinned tree it always is; a rendering that is off by one ulp shows here)
+                same = None
+                try:
+                    if r.unit is q.unit:
+                        same = (r.magnitude == q.magnitude) or (a != a)
+                    elif not q.unit.symbol and cls is None:
+                        um = _unit_to_magnitude_and_terms(q.unit)[0]
+                        if um != 1 and isinstance(q.magnitude, (int, float)):
+                            same = (r.magnitude == (q * um).magnitude)
+                except Exception:  # noqa: BLE001
+                    same = None
+                if same is False:
+                    fails.append({"kind": "quantity-roundtrip-not-equal", "class": cls, "pair": pair, "text": text,
+                                  "parsed": "%r %s" % (r.magnitude, r.unit), "quantity": "%r %s" % (q.magnitude, q.unit)})
     elif exp["what"] == "spelling":
         want = exp["unit"]
         if res.startswith("ERR"):
